@@ -41,6 +41,11 @@ func cmdGen(args []string) {
 				s.CancelN = 2 + r.Intn(14)
 				s.CancelW = []string{"cancel", "deadline"}[r.Intn(2)]
 			}
+			if tr == "http" || tr == "ref" {
+				// over sockets a handler of an earlier, cancelled call may start
+				// late: calls are told apart by a metadata key
+				s.ReqMD = true
+			}
 			enc.Encode(s)
 		}
 	}
